@@ -6,7 +6,7 @@ timeout = 600
 function = "Legalizer::exportPlacement, DetailedPlacement::exportPlacement, GlobalPlacer::exportPlacement(Circuit&, x, y): the only functions of the placement stages that write into a Circuit"
 variants = [
   {name = "legalizer", properties = ["C03", "C01", "C04"], enforce = "Legalizer_exportPlacement", defines = ["H_LEG"]},
-  {name = "detailed", properties = ["C03", "C02", "C04"], enforce = "DetailedPlacement_exportPlacement", defines = ["H_DET"]},
+  {name = "detailed", properties = ["C03", "C02", "C04"], safety_tier = "thorough", enforce = "DetailedPlacement_exportPlacement", defines = ["H_DET"]},
   {name = "global", properties = ["C03", "C06"], safety_tier = "thorough", enforce = "GlobalPlacer_exportPlacement", defines = ["H_GLOB"], replace = ["Circuit_placedWidth", "Circuit_placedHeight"], solver = "kissat"},
 ]
 assumptions = ["frame: the assigns clauses name only cellX_/cellY_/cellOrientation_ contents (global: only cellX_/cellY_), so a write to sizes, flags, polarities, nets, offsets, weights or rows inside these functions fails an assigns obligation; that no OTHER function of the stages writes a Circuit is the call-order unit (c10_order) plus const-correctness of the remaining code (compiler fact, not proved here)",
